@@ -570,3 +570,112 @@ def validate(E, seed, n):
         if not all(approx_same(float(a), float(b)) for a, b in zip(sh, re_)):
             mism.append({"case": "_ema_adjusted", "x": jsonable(xs), "shadow": jsonable(sh), "real": jsonable(re_)})
     return {"cases": done, "mismatches": mism}
+
+
+# ------------------------------------------------------------------ C05: mask vs filter-first / mask vs NaN-substitution
+def _in_decay_class(codes, bits):
+    """an unselected row of a group lies strictly between two selected rows of that group"""
+    N = len(codes)
+    for b in range(N):
+        if bits[b] or codes[b] < 0:
+            continue
+        g = codes[b]
+        if any(bits[a] and codes[a] == g for a in range(b)) and any(bits[c] and codes[c] == g for c in range(b + 1, N)):
+            return True
+    return False
+
+
+def run_mask_relations(E, case, prop):
+    t0 = time.time()
+    N, G = case["N"], case["G"]
+    timed = case["variant"] == "mask_timed"
+    em = E["emas"]
+    res = _blank()
+    dt = real_np.dtype("float64")
+    H = 1000
+    for codes in all_codes(N, G, False):
+        if case.get("first") is not None and codes[0] != case["first"]:
+            continue
+        for bits in itertools.product([True, False], repeat=N):
+            if all(bits) or not any(bits):
+                continue
+            keep = [i for i in range(N) if bits[i]]
+            gapsets = itertools.product((0, 1, 2), repeat=N - 1) if timed else [None]
+            for ds in gapsets:
+                inp = Inputs()
+                xs = inp.values("x", N, dt)
+                inp.vars["k"] = ("const", list(codes), "int64")
+                inp.vars["bits"] = ("const", [int(b) for b in bits], "int64")
+                rt = fresh_runtime()
+                rt.div_obligation = True
+                if timed:
+                    install_exp(rt, maxd=0)
+                    origin = inp.scalar_int("t0", -10**6, 10**6)
+                    offs = [0] + list(itertools.accumulate(ds))
+                    ts = [origin + H * o for o in offs]
+                    inp.vars["offsets"] = ("const", offs, "int64")
+
+                    def kern(cs, vs, tt, mk):
+                        return em["_ema_grouped_timed"](A(list(cs), "int64"), A(vs, dt), A(tt, "int64"), H, G, A(list(mk), "bool") if mk is not None else None)
+                    om = kern(codes, xs, ts, bits)
+                    of = kern([codes[i] for i in keep], [xs[i] for i in keep], [ts[i] for i in keep], None)
+                    on = kern(codes, [xs[i] if bits[i] else float("nan") for i in range(N)], ts, None)
+                else:
+                    alpha = inp.scalar_real("alpha")
+                    inp.pre.append(z3.And(alpha > 0, alpha <= 1))
+
+                    def kern(cs, vs, mk):
+                        return em["_ema_grouped"](A(list(cs), "int64"), A(vs, dt), SF(False, alpha), G, A(list(mk), "bool") if mk is not None else None)
+                    om = kern(codes, xs, bits)
+                    of = kern([codes[i] for i in keep], [xs[i] for i in keep], None)
+                    on = kern(codes, [xs[i] if bits[i] else float("nan") for i in range(N)], None)
+                extra = {"codes": list(codes), "bits": [bool(b) for b in bits]}
+                if timed:
+                    extra["offsets"] = offs
+                # relation A: a masked row behaves like a row whose value is null
+                blA = [(f"mask == null-substitution[row {i}]", b_not(same(_sf(om.cells[i]), _sf(on.cells[i])))) for i in range(N)]
+                _decide_into(res, inp, blA, rt, case, prop, dict(extra, relation="nan_substitution"),
+                             sig=f"ema_{'timed_' if timed else ''}mask_is_null_substitution")
+                # relation B: at selected rows, the masked run equals the run on the filtered data
+                blB = [(f"mask == filter-first[row {i}]", b_not(same(_sf(om.cells[i]), _sf(of.cells[r])))) for r, i in enumerate(keep)]
+                rt2 = fresh_runtime()
+                inclass = (not timed) and _in_decay_class(codes, bits)
+                _decide_into(res, inp, blB, rt2, case, prop, dict(extra, relation="filter_first"),
+                             sig=("ema_grouped:masked_rows_decay" if inclass else f"ema_{'timed_' if timed else ''}mask_is_filter"))
+    res["symex_s"] = time.time() - t0 - res["solver_s"]
+    return _finish(res, E)
+
+
+def replay_mask_relations(case, conc):
+    import groupby_lib.emas as rem
+    conc = common.fix_nans(conc)
+    codes, bits = case["codes"], case["bits"]
+    N = len(codes)
+    keep = [i for i in range(N) if bits[i]]
+    xs = [float(c) for c in to_float_cells(conc["x"])]
+    k = real_np.array(codes, dtype="int64")
+    timed = case["variant"] == "mask_timed"
+    if timed:
+        H = 1000
+        t = [int(conc["t0"][0]) + H * o for o in case["offsets"]]
+
+        def kern(cs, vs, tt, mk):
+            return list(rem._ema_grouped_timed(real_np.array(cs, dtype="int64"), real_np.array(vs, dtype=float), real_np.array(tt, dtype="int64"), H,
+                                               case["G"], real_np.array(mk, dtype=bool) if mk is not None else None))
+        om = kern(codes, xs, t, bits)
+        other = kern([codes[i] for i in keep], [xs[i] for i in keep], [t[i] for i in keep], None) if case["relation"] == "filter_first" else \
+            kern(codes, [xs[i] if bits[i] else float("nan") for i in range(N)], t, None)
+    else:
+        alpha = float(conc["alpha"][0])
+
+        def kern(cs, vs, mk):
+            return list(rem._ema_grouped(real_np.array(cs, dtype="int64"), real_np.array(vs, dtype=float), alpha, case["G"],
+                                         real_np.array(mk, dtype=bool) if mk is not None else None))
+        om = kern(codes, xs, bits)
+        other = kern([codes[i] for i in keep], [xs[i] for i in keep], None) if case["relation"] == "filter_first" else \
+            kern(codes, [xs[i] if bits[i] else float("nan") for i in range(N)], None)
+    if case["relation"] == "filter_first":
+        bad = [i for r, i in enumerate(keep) if not approx_same(float(om[i]), float(other[r]))]
+    else:
+        bad = [i for i in range(N) if not approx_same(float(om[i]), float(other[i]))]
+    return bool(bad), {"masked": jsonable(om), case["relation"]: jsonable(other), "differ_at": bad, "codes": codes, "mask": bits, "x": jsonable(xs)}
